@@ -3,6 +3,7 @@ import os
 import itertools
 import tempfile
 
+import re
 from mc.core import Res
 from mc import keys as K
 from mc import recips as R
@@ -474,10 +475,14 @@ class Prop(object):
                     continue
                 if fmt == 'u' and cname == 'latin1':
                     continue          # format u promises UTF-8
-                for nsig in (0, 1, 2):
-                    for framing in ('new', 'old', 'partial'):
+                # (signatures in text mode - type 0x01, made over the text with its line ends as CR LF - on text literals, alone and next to a binary-mode
+                # signature: what 'gpg --textmode --sign' writes; the one-pass packet announces the type of its signature)
+                for nsig, framing, modes in [(n, f, (0x00, 0x00)) for n in (0, 1, 2) for f in ('new', 'old', 'partial')] + \
+                        ([(n, 'new', md) for n in (1, 2) for md in ((0x01, 0x00), (0x01, 0x01), (0x00, 0x01))[:1 if n == 1 else 3]] if fmt in ('t', 'u') else []):
+                    for _once in (0,):
                         r.states += 1
-                        label = 'reference-made message: %s, format %s, name %r, %d signatures, %s framing, compression %d' % (cname, fmt, name, nsig, framing, comp)
+                        label = 'reference-made message: %s, format %s, name %r, %d signatures%s, %s framing, compression %d' % (
+                            cname, fmt, name, nsig, '' if modes == (0, 0) else ' of types %s' % [hex(x) for x in modes[:nsig]], framing, comp)
                         lit_body = rmsg.literal_body(fmt, name, t, data)
                         if framing == 'partial' and len(lit_body) < 600:
                             lit_pkt = wire.packet(11, lit_body, 'new', chunks=[0, 1] if len(lit_body) > 3 else None)
@@ -489,10 +494,11 @@ class Prop(object):
                         sigs = []
                         for j in range(nsig):
                             rw = raws[j]
-                            b = rsig.make(rw, 0x00, 8, rsig.sp_created(K.T0 + 70 + j) + rsig.sp_issuer_fpr(rkeys.fingerprint(rw)), rsig.sp_issuer(rkeys.keyid(rw)), {'doc': data})
+                            b = rsig.make(rw, modes[j], 8, rsig.sp_created(K.T0 + 70 + j) + rsig.sp_issuer_fpr(rkeys.fingerprint(rw)), rsig.sp_issuer(rkeys.keyid(rw)),
+                                          {'doc': data if modes[j] == 0x00 else re.sub(b'\r?\n', b'\r\n', data)})
                             sigs.append(b)
                         for j in reversed(range(nsig)):
-                            ops = bytes([3, 0x00, 8, rkeys.ALG_ID[raws[j]['alg']]]) + rkeys.keyid(raws[j]) + bytes([1 if j == 0 else 0])
+                            ops = bytes([3, modes[j], 8, rkeys.ALG_ID[raws[j]['alg']]]) + rkeys.keyid(raws[j]) + bytes([1 if j == 0 else 0])
                             seq += wire.packet(4, ops, 'old' if framing == 'old' else 'new')
                         seq += lit_pkt
                         for j in range(nsig):
